@@ -10,7 +10,11 @@ LINEBUF = [('src/nunavut/jinja/__init__.py', 'CodeGenerator._generate_with_line_
            ('src/nunavut/jinja/__init__.py', 'CodeGenerator._handle_post_processors'),
            ('src/nunavut/jinja/__init__.py', 'CodeGenerator.__augment_post_processors_with_ln_limit_empty_lines'),
            ('src/nunavut/jinja/__init__.py', 'CodeGenerator.__augment_post_processors_with_ln_trim_trailing_whitespace'),
-           ('src/nunavut/cli/runners.py', 'ArgparseRunner._build_post_processor_list_from_args')]
+           ('src/nunavut/cli/runners.py', 'ArgparseRunner._build_post_processor_list_from_args'),
+           ('src/nunavut/jinja/__init__.py', 'CodeGenerator.__init__'),
+           ('src/nunavut/jinja/__init__.py', 'SupportGenerator.generate_all'),
+           ('src/nunavut/jinja/__init__.py', 'SupportGenerator._generate_header'),
+           ('src/nunavut/jinja/__init__.py', 'SupportGenerator._copy_header')]
 
 
 def pin_linebuf():
